@@ -70,6 +70,35 @@ def loader_counter_rules(ctx, m, loaders):
         v = fields.get(m.f_stamp)
         maxes = [x for x in walk(v) if x[0] == "call" and x[4] == "max"] if v else []
         ok = False
+        # idiom 2: orders.iter().filter(|e| status != New).map(|e| key.2 + 1).max().unwrap_or(0)
+        iter_ok = False
+        for mx in maxes:
+            if len(mx[2]) == 1 and mx[2][0][0] == "call":
+                e = mx[2][0]
+                names = []
+                clos = {}
+                while e[0] == "call" and e[2] and e[4] in ("map", "filter", "iter", "into_iter", "copied", "cloned"):
+                    names.append(e[4])
+                    if len(e[2]) > 1:
+                        clos[e[4]] = e[2][1]
+                    e = e[2][0]
+                from analysis.beta import apply_closure
+                from analysis.cfg import closure_apply
+                if "map" in clos and fld(e, m.f_orders) and set(names) <= {"map", "filter", "iter", "into_iter"} and names.count("filter") <= 1:
+                    body = closure_apply(ctx.prog, clos["map"], [("var", "e")])
+                    b2 = bin_of(body) if body else None
+                    if body and body[0] == "call" and body[4] in ("saturating_add", "wrapping_add", "checked_add") and len(body[2]) == 2:
+                        b2 = ("Add", body[2][0], body[2][1])
+                    good_map = b2 is not None and b2[0] == "Add" and b2[2][0] == "const" and b2[2][3] == 1 and b2[1][0] == "field" and b2[1][2] == "2" and b2[1][1][0] == "field" and b2[1][1][2] == "key"
+                    good_filter = True
+                    if "filter" in clos:
+                        fb = closure_apply(ctx.prog, clos["filter"], [("var", "e")])
+                        good_filter = fb is not None and fb[0] == "call" and fb[4] == "ne" and any(x[0] == "agg" and x[2].endswith("Status::New") for x in fb[2]) \
+                            and any(x[0] == "field" and x[2] == "status" for x in fb[2])
+                    iter_ok = good_map and good_filter
+        if iter_ok:
+            ctx.ok("loader", ctx.loc(f), "loader: counter <- max over the stored (placed) entries of key.2 + 1 (iterator form)")
+            continue
         for mx in maxes:
             for a in mx[2]:
                 b = bin_of(a)
@@ -127,7 +156,10 @@ def run(ctx):
             if c.target is stamp:
                 ctx.check(not q.cfg.in_loop(c.b), "key-injective", "stamp-loop|" + f.short(), c.loc(), "stamp call is not inside a loop (one stamp per queueing)")
     for (fp, b), ws in used.items():
-        ctx.check(len(ws) == 1, "key-injective", "one-key-per-stamp|" + fp, ws[0].loc(), "each stamp feeds exactly one order key", "one stamp feeds %d keys" % len(ws))
+        fq = ws[0].q
+        excl = all(not fq.cfg.can_reach(x.b, y.b) and not fq.cfg.can_reach(y.b, x.b) for i, x in enumerate(ws) for y in ws[i + 1:] if x.b != y.b) and len({x.b for x in ws}) == len(ws)
+        ctx.check(len(ws) == 1 or excl, "key-injective", "one-key-per-stamp|" + fp, ws[0].loc(), "each stamp feeds exactly one order key on any path (%d mutually exclusive site(s))" % len(ws),
+                  "one stamp can feed %d keys on one path" % len(ws))
     ctx.check(n >= 4, "key-injective", "census", "-", "%d key writes at queueing sites analysed" % n)
     # each key write is followed by an insert with that key: typestate insert/key rules
     ts, roots, loaders = run_typestate(ctx, m)
